@@ -210,7 +210,12 @@ def model_terms(job, res, mode):
         table(res["scores"], rs), table([r + [True] for r in res["stops"]], lambda v: bool(v)),
         table(res["escores"], re_))
     sched = coq([i for i, _ in res["trace"]])
-    ths = "[" + "; ".join("start_thread %d %s" % (100 + i, coq(list(p))) for i, p in enumerate(job["programs"])) + "]"
+    same = bool(job.get("same_tid"))      # nested queries: virtual threads with ONE thread id
+
+    def mtid(i):
+        return 100 if same else 100 + i
+    programs = res.get("programs") or job["programs"]
+    ths = "[" + "; ".join("start_thread %d %s" % (mtid(i), coq(list(p))) for i, p in enumerate(programs)) + "]"
     lhs = "observe_is %s %s %s %s" % (cfg, orc, sched, ths)
     trace = [(i, l) for i, l in res["trace"]]
     results = [[list(r) for r in rr] for rr in res["results"]]
@@ -240,9 +245,10 @@ def model_terms(job, res, mode):
             return "(%d, Some (TDirect %d))" % (r[0], r[2])
         return "(%d, Some (TRecon %d %d))" % (r[0], r[2], r[3])
     real_ths = "[" + "; ".join(
-        "mkT %d PIdle [] [%s]" % (100 + i, "; ".join(tree_term(r) for r in rr))
+        "mkT %d PIdle [] [%s]" % (mtid(i), "; ".join(tree_term(r) for r in rr))
         for i, rr in enumerate(res["results"])) + "]"
     chk = "all_own_b %s %s" % (orc, real_ths)
+    model_terms.discipline = "observe_disciplined %s %s %s %s" % (cfg, orc, sched, ths)
     return lhs, rhs, chk
 
 
@@ -306,6 +312,18 @@ def forced_jobs(ctx, rng):
             pick = orders6 if target.startswith("auto") else orders
             for o in rng.sample(pick, ctx.n(4, 60)):
                 add(target, opts, sweep, progs, [[t, "shared"] for t in o], "sweep")
+    # NESTED queries under the same instrumentation (one real thread; the nested queries are virtual thread 1 with
+    # the same thread id): trace / provenance / state must match the model run of two same-id threads, and the
+    # recorded schedule must satisfy Threads.disciplined (theorem C16_returns_own_tree_shared_ids)
+    npool = distinct_pool(rng, [9, 8, 7, 4, 5, 6])
+    nbase = {"max_repeats": 2, "methods": ["c16-nest-direct"], "optlib": "random"}
+    for target, opts in [("reusable-hyper", dict(nbase, overwrite=ow)) for ow in (False, True, "improved")] + [
+            ("auto", dict(nbase, cache=True, optimal_cutoff=0)), ("autohq", dict(nbase, cache=True, optimal_cutoff=0))]:
+        for api in ("tree", "path"):
+            for hist in ([0, 0, 1, 3], [1, 2, 1, 0, 4]):
+                jobs.append({"kind": "nested_forced", "target": target, "opts": opts, "queries": npool,
+                             "history": hist, "inner": [3, 4, 5, 0], "api": api, "same_tid": True,
+                             "programs": [hist, ["nested"]], "macro": [], "tag": "nested-recorded"})
     # (b) random programs, 2-3 threads, micro-step schedules
     for _ in range(ctx.n(160, 2500)):
         target, opts = rng.choice(reusable_cfgs + auto_cfgs)
@@ -624,6 +642,9 @@ def run(ctx):
         lhs, rhs, chk = model_terms(job, r, m)
         cases.append(("job%d:%s" % (ji, m), "%s %s" % (lhs, rhs), "true"))
         owners.append((ji, m))
+        if job.get("same_tid"):
+            cases.append(("job%d:disciplined" % ji, model_terms.discipline, "true"))
+            owners.append((ji, "disciplined"))
         # the verified checker must give the verdict of the content oracle
         verdict = not any("what" in b for b in r.get("bad", []))
         cases.append(("job%d:checker" % ji, chk, coq(verdict)))
@@ -636,7 +657,7 @@ def run(ctx):
                 ctx.count("answer:" + {0: "searched", 1: "direct", 2: "reconstructed", 9: "raised"}[x[1]])
         switches = sum(1 for a, b in zip(r["trace"], r["trace"][1:]) if a[0] != b[0])
         ctx.case(("forced", job["target"], json.dumps(job["opts"], sort_keys=True), tuple(map(tuple, job["programs"])),
-                  tuple(i for i, _ in r["trace"])),
+                  tuple(i for i, _ in r["trace"]), job.get("api"), tuple(job.get("history", ()))),
                  nontrivial=switches >= 2 and len(labels) >= 8,
                  sample={"target": job["target"], "opts": job["opts"], "programs": job["programs"],
                          "schedule": [i for i, _ in r["trace"]], "results": r["results"]} if ji % 97 == 0 else None)
@@ -690,6 +711,11 @@ def run(ctx):
                      {"job": strip(job), "real": r, "model_value": f,
                       "correspondence": "trace / provenance of answers / HyperOptimizer heap / slots+cache / by-thread dict"},
                      found_input=False)
+        if "disciplined" in f:
+            ctx.fail("the recorded schedule of a NESTED run violates Threads.disciplined (a nested query ran while the "
+                     "outer one was between publishing its slot and fetching from it)",
+                     {"job": strip(job), "schedule": r["trace"], "results": r["results"]},
+                     found_input=bool(r.get("bad")))
         if "checker" in f:
             ctx.fail("verified checker all_own_b and the content oracle disagree on the answers of a real run",
                      {"job": strip(job), "results": r["results"], "schedule": r["trace"], "content_oracle": r.get("bad")},
